@@ -58,6 +58,16 @@ def _one(d, ctx, kind, tier_all, **kw):
         case.trainer_kwargs.pop('max_concentration', None)
         case.meta['data'] = 'sharp-classes'
         sharp = True
+    if not sharp and d.aux(53).integers(0, 6) == 0:
+        # "all initial affiliations": a start that is normalised only up to a
+        # floor applied afterwards (one-hot masks clipped at 1e-6, masks
+        # normalised in single precision)
+        if d.aux(54).integers(0, 2) == 0:
+            case.init = np.clip(case.init, 10.0 ** d.aux(55).uniform(-8, -5), 1.0)
+        else:
+            i32 = case.init.astype(np.float32)
+            case.init = (i32 / i32.sum(axis=-2, keepdims=True)).astype(np.float64)
+        case.meta['init'] = str(case.meta.get('init')) + '+nearly-normalised'
     if kind != 'cbmm' and d.int(0, 7) == 0:
         case.iterations = d.choice([12, 20])     # the property: iterations 1..20
     ctx.describe(**case.describe())
